@@ -204,6 +204,50 @@ func runC16(p *eng.Prog, r *eng.Report, tier string) {
 			c09IndexID(c, "C16.2", f, "jid escaping")
 		}
 	}
+	// ---- C16.10 the exported wrapper adds nothing to the mappings ------------------------
+	// Transformer.Transform / Span hand their arguments to the wrapped mapping
+	// and return its results: the chunking contract (ErrShortDst when the
+	// destination is full, counts that match what was written) is the
+	// mapping's, decided by C16.3-C16.6; a second data path in the wrapper (a
+	// "nothing to rewrite" fast copy) would have to re-establish all of it.
+	for _, w := range []struct{ name, want string }{
+		{"Transformer.Transform", "iface.Transform[recv.t](p0,p1,p2)"},
+		{"Transformer.Span", "iface.Span[recv.t](p0,p1)"},
+	} {
+		wf := c.fn("C16.10", "jid", w.name)
+		if wf == nil {
+			continue
+		}
+		wg := wf.Graph()
+		nr := 0
+		for _, rs := range wg.Returns {
+			nr++
+			got := ""
+			if len(rs.Results) == 1 {
+				rp, _ := wg.Where(rs)
+				got = wf.Norm(rs.Results[0], &rp)
+			}
+			c.r.Check("C16.10", wf, "wrapper return", "K: every return of the exported wrapper is the wrapped mapping's own result for the same arguments: "+w.want, rs.Pos(), eng.Glob("*"+strings.TrimPrefix(w.want, "iface."), got), "returns "+got+" ("+itoa(len(rs.Results))+" operands)")
+		}
+		c.r.Floor("C16.10", "returns of "+w.name, nr, 1)
+	}
+	// ---- C16.9 the two bytes after the escape character exist (Span) ---------------------
+	if us != nil {
+		sg := us.Graph()
+		nsp := 0
+		for _, cl := range us.Calls("jid.shouldUnescape") {
+			nsp++
+			cp, _ := sg.Where(cl)
+			for k, pats := range map[string][]string{
+				"last":           {"!eq((builtin.len(p0) - 1),local:*<int>)", "!eq(local:*<int>,(builtin.len(p0) - 1))"},
+				"second to last": {"!eq((builtin.len(p0) - 2),local:*<int>)", "!eq(local:*<int>,(builtin.len(p0) - 2))"},
+			} {
+				okd, why := sg.DominatedAny(cp, pats)
+				c.r.Check("C16.9", us, "escape character "+k+" excluded before the two following bytes are read", "G: src[n+1 : n+3] is evaluated only where n is neither len-1 nor len-2", cl.Pos(), okd, why)
+			}
+		}
+		c.r.Floor("C16.9", "escape sequence tests in unescapeMapping.Span", nsp, 1)
+	}
 	// ---- C16.3 offset agreement ---------------------------------------------------------
 	if et != nil {
 		g := et.Graph()
@@ -276,6 +320,19 @@ func runC16(p *eng.Prog, r *eng.Report, tier string) {
 			sl, ok := ast.Unparen(cl.Args[0]).(*ast.SliceExpr)
 			okS := ok && affine(ut, sl.Low) == "+1+def:bytes.IndexRune+r1" && affine(ut, sl.High) == "+3+def:bytes.IndexRune+r1"
 			c.r.Check("C16.3", ut, "tested escape sequence position", "E-aff: the two characters tested are src[nSrc+idx+1 : nSrc+idx+3]", cl.Pos(), okS, "")
+			// ... and both of them exist: the escape character is neither the
+			// last nor the second to last byte of the input on any path to the test
+			// (whatever atEOF says; bytes beyond len(src) inside the capacity are
+			// not input)
+			cp, _ := g.Where(cl)
+			for k, pats := range map[string][]string{
+				"last":           {"!eq((builtin.len(p1[*:]) - 1),bytes.IndexRune(*))", "!eq(bytes.IndexRune(*),(builtin.len(p1[*:]) - 1))"},
+				"second to last": {"!eq((builtin.len(p1[*:]) - 2),bytes.IndexRune(*))", "!eq(bytes.IndexRune(*),(builtin.len(p1[*:]) - 2))"},
+				"absent":         {"!eq(bytes.IndexRune(*),-1)"},
+			} {
+				okd, why := g.DominatedAny(cp, pats)
+				c.r.Check("C16.9", ut, "escape character "+k+" excluded before the two following bytes are read", "G: src[nSrc+idx+1 : nSrc+idx+3] is evaluated only where idx is none of -1, len-1, len-2 (index panic, or bytes that are not input are read)", cl.Pos(), okd, why)
+			}
 		}
 	}
 	// the convenience methods go through the transform package's drivers, which
